@@ -640,6 +640,30 @@ def _pad(x, pad, value=0):
     return SymTensor.from_array(out, x.dtype)
 
 
+def CUR_EXPLORER():
+    from . import core as _c
+    if _c.CUR is None:
+        raise EngineError("random op outside an exploration")
+    return _c.CUR
+
+
+@reg(aten.native_dropout.default)
+def _native_dropout(x, p, train):
+    # training-mode dropout: every element is either dropped or scaled by 1/(1-p); the mask is an arbitrary boolean per element
+    if not train:
+        return x, SymTensor.from_array(np.ones(to_arr(x).shape, dtype=object), torch.bool)
+    ex = CUR_EXPLORER()
+    X = to_arr(x)
+    keep = np.empty(X.shape, dtype=object)
+    out = np.empty(X.shape, dtype=object)
+    q = Fraction(1) / (Fraction(1) - Fraction(conc(p)))
+    for idx in np.ndindex(*X.shape):
+        b = ex.fresh('drop', 'b')
+        keep[idx] = b
+        out[idx] = e_where(b, e_mul(X[idx], q), Fraction(0))
+    return SymTensor.from_array(out, x.dtype), SymTensor.from_array(keep, torch.bool)
+
+
 def _index_pad(mode):
     """replication / reflection padding: every output element is one of the input elements (index map built with numpy on an index grid)"""
     def h(x, pad):
